@@ -22,6 +22,7 @@ type c04Scn struct {
 	Op     string   `json:"op"` // none update leave bcast reliable join-again
 	OpAt   int      `json:"op_at_ms"`
 	L0     string   `json:"base_latency"` // min max alt
+	AwMax0 bool     `json:"awareness_max_multiplier_zero,omitempty"` // node 0 is configured with AwarenessMaxMultiplier 0 (the zero value of a hand-built Config)
 	Prefix []int    `json:"choices"`
 	Devs   []string `json:"deviations,omitempty"`
 }
@@ -41,7 +42,16 @@ func runC04(t *testing.T, s c04Scn) (x nExec) {
 	ch := &chooser{prefix: s.Prefix}
 	res := inBubble(t, func(b *bubble) {
 		pt2 := 250 * time.Millisecond
-		cfg := clusterCfg{N: s.N, Opts: c04Opts, L0: time.Millisecond,
+		opts := c04Opts
+		if s.AwMax0 {
+			opts = func(i int, c *ml.Config) {
+				c04Opts(i, c)
+				if i == 0 {
+					c.AwarenessMaxMultiplier = 0
+				}
+			}
+		}
+		cfg := clusterCfg{N: s.N, Opts: opts, L0: time.Millisecond,
 			LatAlt:    []time.Duration{pt2 - time.Millisecond, pt2 - 100*time.Microsecond},
 			FaultFrom: 0, FaultTo: time.Hour, Horizon: 9 * time.Second}
 		switch s.L0 {
@@ -53,6 +63,18 @@ func runC04(t *testing.T, s c04Scn) (x nExec) {
 		cfg.ProbePhase = phases[s.Phase%len(phases)]
 		c := newCluster(t, b, cfg, ch)
 		leaver := -1
+		leavers := map[int]bool{}
+		isLeaver := func(name string) bool {
+			if leaver >= 0 && name == nodeName(leaver) {
+				return true
+			}
+			for i := range leavers {
+				if name == nodeName(i) {
+					return true
+				}
+			}
+			return false
+		}
 		updates := map[int]int{}
 		c.StepCheck = func(c *cluster) string {
 			for _, n := range c.nodes {
@@ -72,13 +94,13 @@ func runC04(t *testing.T, s c04Scn) (x nExec) {
 					if r.State == ml.StateAlive {
 						continue
 					}
-					if leaver >= 0 && r.Name == nodeName(leaver) && r.State == ml.StateLeft {
+					if isLeaver(r.Name) && r.State == ml.StateLeft {
 						continue
 					}
 					return fmt.Sprintf("%s holds %s as %s", n.Name, r.Name, stateName(r.State))
 				}
 				for _, ev := range n.Ev.Log {
-					if ev.Kind == "leave" && !(leaver >= 0 && ev.Name == nodeName(leaver)) {
+					if ev.Kind == "leave" && !isLeaver(ev.Name) {
 						return fmt.Sprintf("%s delivered a leave event for %s", n.Name, ev.Name)
 					}
 				}
@@ -142,6 +164,18 @@ func runC04(t *testing.T, s c04Scn) (x nExec) {
 					_ = c.nodes[s.N-1].M.Leave(2 * time.Second)
 				}()
 			})
+		case "two-leaves+shutdown":
+			// two members depart gracefully one after the other, each shutting down after its Leave: the
+			// second leaver holds the first one's departed record while it announces its own departure
+			c.at(at, "Leave", func() {
+				go func() { _ = c.nodes[s.N-1].M.Leave(2 * time.Second) }()
+			})
+			c.at(at+1500*time.Millisecond, "Shutdown-after-leave", func() { c.crash(s.N - 1); c.nodes[s.N-1].left = true })
+			c.at(at+1700*time.Millisecond, "Leave-2", func() {
+				go func() { _ = c.nodes[s.N-2].M.Leave(2 * time.Second) }()
+			})
+			c.at(at+3200*time.Millisecond, "Shutdown-after-leave-2", func() { c.crash(s.N - 2); c.nodes[s.N-2].left = true })
+			leavers[s.N-1], leavers[s.N-2] = true, true
 		case "leave+shutdown":
 			c.at(at, "Leave", func() {
 				leaver = s.N - 1
@@ -170,7 +204,13 @@ func runC04(t *testing.T, s c04Scn) (x nExec) {
 				if strings.HasPrefix(l, "suspect(") {
 					x.Verdict, x.Msg = "suspect-on-the-wire", fmt.Sprintf("%v %s->%s %s", w.At, w.From, w.To, l)
 				}
-				if strings.HasPrefix(l, "dead(") && !(leaver >= 0 && strings.Contains(l, "dead("+nodeName(leaver)+",") && strings.HasSuffix(l, "from="+nodeName(leaver)+")")) {
+				selfSigned := false
+				for i := 0; i < s.N; i++ {
+					if isLeaver(nodeName(i)) && strings.Contains(l, "dead("+nodeName(i)+",") && strings.HasSuffix(l, "from="+nodeName(i)+")") {
+						selfSigned = true
+					}
+				}
+				if strings.HasPrefix(l, "dead(") && !selfSigned {
 					x.Verdict, x.Msg = "dead-on-the-wire", fmt.Sprintf("%v %s->%s %s", w.At, w.From, w.To, l)
 				}
 			}
@@ -184,6 +224,7 @@ func runC04(t *testing.T, s c04Scn) (x nExec) {
 			if leaver >= 0 {
 				want--
 			}
+			want -= len(leavers)
 			if len(n.M.Members()) != want && x.Verdict == "" {
 				x.Verdict, x.Msg = "cluster-did-not-form", fmt.Sprintf("%s lists %s", n.Name, c.view(n))
 			}
@@ -250,13 +291,29 @@ func TestC04(t *testing.T) {
 			}
 		}
 	}
+	// node 0 built from a Config whose AwarenessMaxMultiplier was left at its zero value
+	for _, op := range []string{"none", "update", "leave"} {
+		scns = append(scns, scn{N: 3, Order: []int{0, 1, 2}, Phase: 1, Op: op, OpAt: 700, L0: "min", AwMax0: true})
+	}
+	// two graceful departures in a row, each followed by Shutdown
+	for _, n := range []int{3, 4} {
+		ords := [][]int{{0, 1, 2}, {2, 0, 1}}
+		if n == 4 {
+			ords = [][]int{{0, 1, 2, 3}, {3, 1, 0, 2}}
+		}
+		for oi, o := range ords {
+			for _, at := range []int{700, 1900} {
+				scns = append(scns, scn{N: n, Order: o, Phase: oi, Op: "two-leaves+shutdown", OpAt: at, L0: "min"})
+			}
+		}
+	}
 	digests := map[string]bool{}
 	shardIdx := 0
 	execs := 0
 	for si, s := range scns {
 		s := s
 		b := bound
-		if !thorough() && !(s.Op == "none" || s.Op == "leave" || s.Op == "update" || s.Op == "update-empty" || s.Op == "update+leave" || s.Op == "leave+shutdown") {
+		if !thorough() && !(s.Op == "none" || s.Op == "leave" || s.Op == "update" || s.Op == "update-empty" || s.Op == "update+leave" || s.Op == "leave+shutdown" || s.Op == "two-leaves+shutdown") {
 			b = 0 // quick: deviations only on the core scenarios
 		}
 		if b == 0 && !mine(si) {
